@@ -40,6 +40,7 @@ impl E2Run for Start {
         let plan_cell: Arc<Mutex<Plan>> = Arc::new(Mutex::new(Plan::default()));
         let (r2, p2) = (reqs.clone(), plan_cell.clone());
         let avoid_many = opts.avoids("no_more_than_16_concurrent_shutdowns");
+        let avoid_forward_arp = opts.avoids("no_forward_with_arp");
         let (ret, state) = sim::run_sim(case, default_cfg(), move || async move {
             draw_scheduler_knobs();
             let net = Network::basic();
@@ -65,11 +66,15 @@ impl E2Run for Start {
             let mut machines: Vec<Arc<Machine>> = vec![];
             let mut status_counter = 1u32;
             let storm_time = 50 + sim::choose(500);
+            let flavours: Vec<u64> = (0..n_machines)
+                .map(|m| if with_capture && m < 2 { 3 * sim::choose(2) } else { sim::choose(if avoid_forward_arp { 7 } else { 8 }) })
+                .collect();
+            let forwarders: Vec<usize> = (0..n_machines).filter(|m| flavours[*m] == 7).collect();
             for m in 0..n_machines {
                 let ip = [10, 0, 0, m as u8 + 1];
                 let table: IpTable<Recipient> = [("0.0.0.0/0", Recipient::new(0, None))].into_iter().collect();
                 let mut machine = Machine::new().with(Pci::new([net.clone()])).with(Ipv4::new(table)).with(Udp::new());
-                let flavour = if with_capture && m < 2 { 3 * sim::choose(2) } else { sim::choose(7) };
+                let flavour = flavours[m];
                 match flavour {
                     0 => machine = machine.with(Tcp::new()),
                     1 => machine = machine.with(Arp::new()),
@@ -81,6 +86,17 @@ impl E2Run for Start {
                         Ipv4Address::new(ip),
                         elvis::ip_generator::IpRange::new(Ipv4Address::new([10, 0, 9, 1]), Ipv4Address::new([10, 0, 9, 50])),
                     )),
+                    // an application that opens its session during initialisation, on a machine with ARP
+                    7 => {
+                        machine = machine.with(Arp::new()).with(elvis::applications::Forward::new(elvis_core::protocols::Endpoints::new(
+                            Endpoint::new(Ipv4Address::new(ip), 7000),
+                            // the next forwarder in the ring (or itself): a machine with ARP that claims its address
+                            Endpoint::new(
+                                Ipv4Address::new([10, 0, 0, 1 + forwarders[(forwarders.iter().position(|x| *x == m).unwrap() + 1) % forwarders.len()] as u8]),
+                                7000,
+                            ),
+                        )))
+                    }
                     _ => {}
                 }
                 if with_capture && m == 0 {
@@ -284,7 +300,7 @@ impl E2Run for Start {
     }
 
     fn avoid_switches(&self) -> Vec<&'static str> {
-        vec!["no_more_than_16_concurrent_shutdowns"]
+        vec!["no_more_than_16_concurrent_shutdowns", "no_forward_with_arp"]
     }
 
     fn describe(&self) -> ScenarioInfo {
